@@ -295,18 +295,19 @@ package p9p
 //@ iface Dirent.Walk
 //@ modifies alloc, issued
 //@ requires not_released: !released(self)
-//@ ensures err == nil && result1 != nil ==> !old(issued(result1)) && issued(result1) && !released(result1) && ONLYISS(result1)
+//@ ensures err == nil && result1 != nil ==> !was(issued, result1) && issued(result1) && !released(result1) && ONLYISS(result1)
 //@ ensures !(err == nil && result1 != nil) ==> SAMEISS
 
 //@ iface Dirent.Create
 //@ modifies alloc, issued, released
 //@ requires not_released: !released(self)
-//@ ensures err == nil && result0 != nil && result1 != nil ==> !old(issued(result0)) && issued(result0) && !released(result0) && key(result0) != key(self) && ONLYISS(result0) && released(self) && ONLYREL(self)
+//@ ensures err == nil && result0 != nil && result1 != nil ==> !was(issued, result0) && issued(result0) && !released(result0) && key(result0) != key(self) && ONLYISS(result0) && released(self) && ONLYREL(self)
 //@ ensures !(err == nil && result0 != nil && result1 != nil) ==> SAMEISS && SAMEREL
 
 //@ iface FileSys.Attach
 //@ modifies alloc, issued
-//@ ensures err == nil && result0 != nil ==> !old(issued(result0)) && issued(result0) && !released(result0) && ONLYISS(result0)
+//@ ensures well_behaved: err == nil ==> result0 != nil
+//@ ensures err == nil && result0 != nil ==> !was(issued, result0) && issued(result0) && !released(result0) && ONLYISS(result0)
 //@ ensures !(err == nil && result0 != nil) ==> SAMEISS
 
 //@ iface FileSys.Auth
@@ -331,7 +332,7 @@ package p9p
 //@ macro LEDGER = (forall f Fid :: {smhas(REFS, f)} BOUND(f) ==> issued(R(f).Ent) && !released(R(f).Ent))
 //@ macro DISTINCT = (forall f Fid, g Fid :: {smval(REFS, f), smval(REFS, g)} BOUND(f) && BOUND(g) && f != g ==> key(R(f).Ent) != key(R(g).Ent))
 //@ macro QUIET = (lockcount() == 0 && (forall k int :: {gk(held, k)} !gk(held, k)))
-//@ macro SAME(g) = (smhas(REFS, g) == old(smhas(REFS, g)) && smval(REFS, g) == old(smval(REFS, g)) && (smhas(REFS, g) ==> R(g).Ent == old(R(g).Ent) && R(g).File == old(R(g).File) && R(g).Mode == old(R(g).Mode)))
+//@ macro SAME(g) = (smhas(REFS, g) == old(smhas(REFS, g)) && (smhas(REFS, g) ==> smval(REFS, g) == old(smval(REFS, g)) && R(g).Ent == old(R(g).Ent) && R(g).File == old(R(g).File) && R(g).Mode == old(R(g).Mode)))
 //@ macro TABLE_SAME = (forall g Fid :: {smhas(REFS, g)} SAME(g))
 //@ macro OTHERS_SAME(x) = (forall g Fid :: {smhas(REFS, g)} g != x ==> SAME(g))
 //@ macro HELD_SAME = (forall g Fid :: {smhas(REFS, g)} old(smhas(REFS, g)) ==> held(old(R(g))) == old(held(R(g))))
@@ -347,7 +348,8 @@ package p9p
 
 //@ func (*session).newRef
 //@ property C08 C13 C14
-//@ requires WF
+//@ requires WF && INJ
+//@ ensures inv: WF && INJ
 //@ ensures reserved: err == nil ==> fid != NOFID && !old(smhas(REFS, fid)) && smhas(REFS, fid) && result0 == R(fid) && result0 != nil && fresh(result0) && result0.Ent == nil && result0.File == nil && held(result0) && lockcount() == old(lockcount()) + 1 && HELD_SAME
 //@ ensures reserved_frame: err == nil ==> (forall g Fid :: {smhas(REFS, g)} g != fid ==> SAME(g))
 //@ ensures refused: err != nil ==> result0 == nil && TABLE_SAME && lockcount() >= old(lockcount()) && HELD_SAME && ((fid == NOFID && err == ErrUnknownfid) || (fid != NOFID && old(smhas(REFS, fid)) && err == ErrDupfid))
@@ -431,4 +433,46 @@ package p9p
 //@ ensures failed: err != nil ==> TABLE_SAME
 //@ ensures once: old(BOUND(fid)) && old(R(fid).File) != nil ==> err != nil
 //@ ensures opened: err == nil ==> old(BOUND(fid)) && old(R(fid).File) == nil && smval(REFS, fid) == old(smval(REFS, fid)) && R(fid).Ent == old(R(fid).Ent) && R(fid).File != nil && R(fid).Mode == mode
+//@ ensures locks: UNLOCKED
+
+//@ macro NEWENT(e) = (e != nil && !was(issued, e) && issued(e) && !released(e))
+
+//@ func (*session).Attach
+//@ property C08 C13 C14
+//@ requires TABLE && QUIET
+//@ ensures inv: TABLE
+//@ ensures dup: old(smhas(REFS, fid)) || fid == NOFID ==> err != nil && TABLE_SAME
+//@ ensures failed: err != nil ==> TABLE_SAME && SAMEREL
+//@ ensures bound: err == nil ==> !old(smhas(REFS, fid)) && BOUND(fid) && R(fid).File == nil && NEWENT(R(fid).Ent) && OTHERS_SAME(fid) && SAMEREL
+//@ ensures locks: UNLOCKED
+
+//@ func (*session).Auth
+//@ property C08 C13 C14
+//@ requires TABLE && QUIET
+//@ ensures inv: TABLE && SAMEREL
+//@ ensures others: OTHERS_SAME(afid)
+//@ ensures never_binds: !BOUND(afid) || old(BOUND(afid))
+//@ ensures dup: old(smhas(REFS, afid)) ==> TABLE_SAME
+//@ ensures locks: UNLOCKED
+
+//@ func (*session).Walk
+//@ property C08 C13 C14
+//@ let COMPLETE = (err == nil && len(result0) == len(names))
+//@ let MOVES = (COMPLETE && !(len(names) == 0 && newfid == fid))
+//@ requires TABLE && QUIET
+//@ ensures inv: TABLE
+//@ ensures unbound_source: !old(BOUND(fid)) || fid == NOFID ==> err != nil
+//@ ensures dup_target: newfid != fid && (old(smhas(REFS, newfid)) || newfid == NOFID) ==> err != nil
+//@ ensures nothing_bound_unless_complete: !MOVES ==> TABLE_SAME && SAMEREL
+//@ ensures new_fid: MOVES && newfid != fid ==> !old(smhas(REFS, newfid)) && BOUND(newfid) && R(newfid).File == nil && NEWENT(R(newfid).Ent) && OTHERS_SAME(newfid) && SAMEREL
+//@ ensures in_place: MOVES && newfid == fid ==> old(BOUND(fid)) && BOUND(fid) && smval(REFS, fid) == old(smval(REFS, fid)) && NEWENT(R(fid).Ent) && R(fid).File == old(R(fid).File) && released(old(R(fid).Ent)) && ONLYREL(old(R(fid).Ent)) && OTHERS_SAME(fid)
+//@ ensures locks: UNLOCKED
+
+//@ func (*session).Create
+//@ property C08 C13 C14
+//@ requires TABLE && QUIET
+//@ ensures inv: TABLE
+//@ ensures unbound_parent: !old(BOUND(parent)) || parent == NOFID ==> err != nil
+//@ ensures failed: err != nil ==> TABLE_SAME && SAMEREL
+//@ ensures created: err == nil ==> old(BOUND(parent)) && BOUND(parent) && smval(REFS, parent) == old(smval(REFS, parent)) && NEWENT(R(parent).Ent) && R(parent).File != nil && R(parent).Mode == mode && released(old(R(parent).Ent)) && ONLYREL(old(R(parent).Ent)) && OTHERS_SAME(parent)
 //@ ensures locks: UNLOCKED
